@@ -18,6 +18,7 @@ import impl
 from common import driver_batch
 
 ID = 'C08'
+EXTRA_MODULES = ['Mistletoe.Proofs.Html', 'Mistletoe.Proofs.HtmlEndToEnd']
 RULE = ('documents from the spec corpus, mutations, random documents and templates seeded with quote/bracket/'
         'ampersand-rich destinations, titles, alt texts, info strings and autolinks, x the 8 HtmlRenderer option '
         'sets; token trees additionally edited to carry hostile strings in every string attribute; escaping helpers '
